@@ -18,6 +18,9 @@ type fakeConnector struct{ s *Store }
 
 var storeMu sync.Mutex // database/sql may call the driver from several goroutines
 
+func lockStore()   { storeMu.Lock() }
+func unlockStore() { storeMu.Unlock() }
+
 var nativePools sync.Map // *sql.DB -> *Store
 
 func OpenPool(s *Store) *sql.DB {
@@ -37,8 +40,9 @@ type fakeDriver struct{}
 func (fakeDriver) Open(string) (driver.Conn, error) { return nil, errors.New("use OpenPool") }
 
 type fakeConn struct {
-	s  *Store
-	tx *txState
+	s     *Store
+	tx    *txState
+	stmts []*fakeStmt // statements prepared on this connection: they die with it
 }
 
 func namedToValues(args []driver.NamedValue) []driver.Value {
@@ -58,9 +62,26 @@ func (c *fakeConn) PrepareContext(ctx context.Context, query string) (driver.Stm
 	if err := c.s.Prepare(c.tx, ctxTag(ctx), query); err != nil {
 		return nil, err
 	}
-	return &fakeStmt{c: c, text: query}, nil
+	st := &fakeStmt{c: c, text: query}
+	c.stmts = append(c.stmts, st)
+	return st, nil
 }
-func (c *fakeConn) Close() error { return nil }
+// Close: a connection database/sql gives up (driver.ErrBadConn) takes its
+// statements with it - database/sql does not close every one of them itself
+// (a statement re-prepared for a transaction by Tx.StmtContext is not in the
+// connection's own list).
+func (c *fakeConn) Close() error {
+	storeMu.Lock()
+	defer storeMu.Unlock()
+	for _, st := range c.stmts {
+		if !st.closed {
+			st.closed = true
+			c.s.CloseStmt(st.text)
+		}
+	}
+	c.stmts = nil
+	return nil
+}
 func (c *fakeConn) Begin() (driver.Tx, error) {
 	return c.BeginTx(context.Background(), driver.TxOptions{})
 }
